@@ -538,10 +538,23 @@ func shareFrom(c *core.Ctx, prop, rule string, match func(o *core.Obligation) bo
 	}
 	sharingActive[c.Prop] = true
 	defer delete(sharingActive, c.Prop)
-	sub, _ := core.NewCtx(c.P, prop, c.Tier, c.Seed, c.OutDir, "")
-	fn(sub)
+	// one evaluation per (program, source property, set of properties currently pulling): `-prop all` and the nested
+	// imports would otherwise evaluate the same rule set dozens of times
+	var act []string
+	for k := range sharingActive {
+		act = append(act, k)
+	}
+	sort.Strings(act)
+	ck := shareKey{c.P, prop + "|" + strings.Join(act, ",")}
+	obls, hit := shareCache[ck]
+	if !hit {
+		sub, _ := core.NewCtx(c.P, prop, c.Tier, c.Seed, c.OutDir, "")
+		fn(sub)
+		obls = sub.Obls
+		shareCache[ck] = obls
+	}
 	n := 0
-	for _, o := range sub.Obls {
+	for _, o := range obls {
 		if !match(o) {
 			continue
 		}
@@ -563,6 +576,13 @@ func shareFrom(c *core.Ctx, prop, rule string, match func(o *core.Obligation) bo
 }
 
 var sharingActive = map[string]bool{}
+
+type shareKey struct {
+	p   *core.Program
+	key string
+}
+
+var shareCache = map[shareKey][]*core.Obligation{}
 
 // ---- small polynomials over named configuration values -------------------------------------------------------
 
